@@ -6,25 +6,30 @@ the property itself as an oracle on the implementation's verdicts."""
 import itertools
 import json
 
+import core
 import env
 import pipeline
+import c05gen as G
 from pipeline import A, R, SPCase
 from core import Exn
 from env import NOW, SP_ID, SP_ACS_POST, SP_ACS_REDIRECT
 from saml2_tophat.saml import SCM_BEARER
 
 CLAIM = {
-    "text": "Coq theorems (Props/C05.v) over the model of the SP response pipeline (Model/Response.v: _parse_response, loads, verify, _assertion, condition_ok, for_me, get_subject, _bearer_confirmed, verify_recipient) for every response content, signature state, clock and configuration: unless unsolicited responses are allowed an accepted response's InResponseTo is an outstanding request and every confirmation of its plain assertions names that request; an accepted browser-binding response's Destination matches the pattern / is an own endpoint; with conversation info every retained confirmation's Recipient is the entity id or an own endpoint; every audience restriction of every accepted assertion names the SP (proved for the configuration where the code checks it; the two deviations of the unchanged code are refuted with witnesses and listed as known findings unless repaired). Tie: the whole cross product of the quantifier (and its neighbours: two outstanding requests, endpoint-less binding) on implementation and model every run.",
-    "note": "Trusted: Coq kernel + vm_compute; the hand-written pipeline model is tied to the code by the exhaustive cross-product correspondence at accept/reject + returned-observables granularity; the regular-expression engine is an oracle input (re.search verdict); responses with <Advice> are outside the model; signatures are irrelevant here (unsigned path, proved independent).",
+    "text": "Coq theorems (Props/C05.v) over the model of the SP response pipeline (Model/Response.v: _parse_response, loads, verify, _assertion, condition_ok, for_me, get_subject, _bearer_confirmed, verify_recipient) and of where its return addresses come from (Model/Endpoints.v: Config.endpoint, Base.service_urls, asynchop choice, parse_authn_request_response with an ARBITRARY assertion_consumer_service table and arriving binding), for every response content, signature state, clock and configuration: unless unsolicited responses are allowed an accepted response's InResponseTo is an outstanding request and every retained confirmation of its plain and decrypted assertions names that request; service_urls hands out exactly the urls registered for the binding; an accepted browser-binding response's Destination matches the pattern or is registered for THAT binding (an own endpoint of another binding, a foreign url, any url when the SP has no endpoint for the binding is refused); with conversation info every retained confirmation's Recipient is the entity id or registered for that binding; the same for the n-th call of any history of calls on one SP; every audience restriction of every accepted assertion names the SP (the two deviations of the earlier code are refuted with witnesses, repaired by fix: commits). Tie: the cross product of the quantifier, 18 endpoint tables x arriving binding x Destination / Recipient kinds x pattern x conv info, confirmation layouts x plain / encrypted / multi-assertion delivery x outstanding-request variants on long-lived SP objects, and call histories on fresh SP objects, implementation vs model every run.",
+    "note": "Trusted: Coq kernel + vm_compute; the hand-written pipeline model is tied to the code by the exhaustive cross-product correspondence at accept/reject + returned-observables granularity; the regular-expression engine is an oracle input (re.search verdict); responses with <Advice> and attribute-query responses are outside the model; signatures are irrelevant here (unsigned path, proved independent).",
     "technique": "machine-checked proof (Coq) + exhaustive cross-product correspondence + implementation-level oracle",
 }
-TRUSTED = ["modelled: the SP response pipeline of response.py / entity.py as Model/Response.v (see its header); not modelled: Advice, EncryptedID, holder-of-key extension parsing beyond 'has KeyInfo'",
+TRUSTED = ["modelled: the SP response pipeline of response.py / entity.py as Model/Response.v, Config.endpoint / Base.service_urls as Model/Endpoints.v (see their headers); not modelled: attribute-query responses, Advice, EncryptedID, holder-of-key extension parsing beyond 'has KeyInfo'",
            "re.search on the destination pattern is computed by Python and passed to the model as dest_regex_match"]
 ASSUMPTIONS = ["the response arrives over a browser binding unless the cell says SOAP", "regex verdict supplied per case"]
 RULE = ("cells = InResponseTo{match,other-outstanding,unknown,absent} x SCD-InResponseTo{match,other-outstanding,unknown,absent} x Destination{own,foreign,absent} "
         "x audience layouts (9) x Recipient{own,entity-id,foreign} x allow_unsolicited x conv-info{none,entity,entity+addr} x pattern{unset,matching,non-matching} "
         "x binding{post, redirect with and without an endpoint} x shape{single confirmation, data-less confirmation first, two confirmations, encrypted assertion}; non-trivial = every cell (each differs in at least one addressing input); quick tier samples the "
-        "product by a covering design (every pair of factor values), thorough runs it whole")
+        "product by a covering design (every pair of factor values), thorough runs it whole.  Per-binding part (c05gen.py): service_urls for 18 ACS tables x 5 bindings (whole); "
+        "block D = tables x arriving {post,redirect,artifact} x Destination {P,R,A,bare,foreign,near-miss,absent} x pattern (whole); block R = tables x arriving x Recipient (6) x conv-info (3) x {plain,encrypted} "
+        "(whole for the 10 small tables); block S = irt x scd x allow_unsolicited x confirmation layout (5) x delivery {plain,encrypted,plain+encrypted, 3 multi-assertion} x outstanding variant (4) "
+        "(whole for the first two variants); 700 random cells; 60 histories of 6 calls on a fresh SP object; non-trivial = distinct cell / history")
 
 AUD_LAYOUTS = {
     "none": [], "me": [[SP_ID]], "other": [["https://other.example.org/sp"]],
@@ -45,6 +50,7 @@ FACTORS = [
     ("bind", ["post", "redirect", "redirect-no-endpoint"]),
     ("shape", ["single", "nodata-first", "encrypted", "two-confirmations"]),
 ]
+G_IMPORTS = "Model.Status Model.Response Model.Endpoints"
 OUTSTANDING = {"req-1": "/came-from-1", "req-2": "/came-from-2"}
 
 
@@ -131,6 +137,66 @@ def oracle(ctx, cell, case, spec, got):
                 ctx.oracle_fail("foreign-recipient-accepted:bind=%s" % cell["bind"], "accepted with bearer Recipient %r" % c["recipient"], cell)
 
 
+def oracle_e(ctx, c, case, spec, got):
+    """the property on the verdicts of the per-binding / hidden-confirmation cells (no model involved)"""
+    if not isinstance(got, list):
+        return
+    browser = c["arrive"] in G.BROWSER
+    outs = G.OUT_VARIANTS[c["outs"]]
+    every = spec["assertions"] + spec["encrypted"]
+    if browser and not c["unsol"]:
+        if spec["irt"] not in outs:
+            ctx.oracle_fail("unsolicited-accepted:irt=%s:arrive=%s" % (c["irt"], c["arrive"]),
+                            "response with InResponseTo %r accepted although no such request is outstanding (%r)" % (spec["irt"], sorted(outs)), c)
+        for a in every:
+            for sc in a["confirmations"]:
+                if sc.get("data", True) and sc["irt"] is not None and sc["irt"] != spec["irt"]:
+                    ctx.oracle_fail("confirmation-names-other-request:confs=%s:delivery=%s:irt=%s:scd=%s" % (c["confs"], c["delivery"], c["irt"], c["scd"]),
+                                    "accepted although a bearer confirmation names request %r and the response %r (outstanding %r)"
+                                    % (sc["irt"], spec["irt"], sorted(outs)), c)
+    if browser and spec["destination"] is not None:
+        import re
+        if case.regex is not None:
+            ok = bool(re.search(case.regex, spec["destination"]))
+        else:
+            ok = G.registered_for(c["layout"], c["arrive"], spec["destination"])
+        if not ok:
+            ctx.oracle_fail("destination-not-registered-for-binding:arrive=%s:dest=%s:pattern=%s" % (c["arrive"], c["dest"], c["pattern"]),
+                            "accepted over %s with Destination %r; ACS table %r, pattern %r" % (c["arrive"], spec["destination"], G.LAYOUTS[c["layout"]], case.regex), c)
+    if case.conv_info:
+        for a in every:
+            for sc in a["confirmations"]:
+                if not sc.get("data", True):
+                    continue
+                rc = sc["recipient"]
+                if rc != case.conv_info.get("entity_id") and not G.registered_for(c["layout"], c["arrive"], rc):
+                    ctx.oracle_fail("recipient-not-registered-for-binding:arrive=%s:recip=%s:delivery=%s" % (c["arrive"], c["recip"], c["delivery"]),
+                                    "accepted over %s with bearer Recipient %r; ACS table %r" % (c["arrive"], rc, G.LAYOUTS[c["layout"]]), c)
+
+
+def run_service_urls(ctx):
+    """Base.service_urls / Config.endpoint for every table x every binding vs Model.Endpoints.service_urls"""
+    cases = []
+    for lay in G.LAYOUTS:
+        sp = G.SPCaseE(layout=lay).sp()
+        for bk, b in G.BIND.items():
+            for how in ("service_urls", "config.endpoint"):
+                if how == "service_urls":
+                    got = sp.service_urls(b)
+                else:
+                    got = sp.config.endpoint("assertion_consumer_service", b, "sp") or None
+                impl = None if got is None else [x for x in got if isinstance(x, str)]
+                cases.append(dict(id="%s/%s/%s" % (lay, bk, how), coq="(%s, %s)" % (G.table_coq(lay), core.cstr(b)), impl=impl,
+                                  show=dict(layout=lay, binding=bk, call=how)))
+                ctx.nontriv(("urls", lay, bk))
+                # the statement itself: exactly the urls registered for that binding
+                want = [u for u in G.URL.values() if G.registered_for(lay, bk, u)]
+                if sorted(impl or []) != sorted(want):
+                    ctx.oracle_fail("service-urls-not-those-of-the-binding:binding=%s:layout=%s" % (bk, lay),
+                                    "%s(%s) = %r but the table %r registers %r for it" % (how, bk, got, G.LAYOUTS[lay], want), dict(kind="urls", layout=lay, binding=bk))
+    ctx.correspond("service_urls_per_binding", G_IMPORTS, "show_service_urls", "(list endp * str)", cases)
+
+
 def run(ctx):
     env.tool_inprocess(True)
     cs = cells(ctx)
@@ -151,16 +217,76 @@ def run(ctx):
     ctx.exhaustive = not ctx.quick
     ctx.correspond("sp_pipeline_addressing", pipeline.IMPORTS, pipeline.MODEL_ACCEPT, pipeline.CTYPE, cases, shard=250)
 
+    # ---- endpoint table quantified per binding; hidden confirmations; on long-lived SP objects
+    run_service_urls(ctx)
+    q = ctx.quick
+    ecells = G.block_destination(q) + G.block_recipient(q) + G.block_solicited(q)
+    ecells += [G.random_cell(ctx.rng) for _ in range(700 if q else 12000)]
+    ctx.rng.shuffle(ecells)          # the SP objects are shared by all cells of one configuration: bindings interleave
+    cases = []
+    with env.Clock(NOW):
+        for n, c in enumerate(ecells):
+            case, spec = G.build(c)
+            xml = pipeline.build_xml(spec)
+            coq, ids = pipeline.case_coq(case, spec, NOW)
+            got = G.call_sp(case.sp(), case, xml, ids)
+            cases.append(dict(id="e%d" % n, coq=coq, impl=G.verdict(got), show=c))
+            ctx.nontriv(tuple(sorted(c.items())))
+            ctx.count("%s:%s" % (c["kind"], "accepted" if isinstance(got, list) else "rejected"))
+            oracle_e(ctx, c, case, spec, got)
+            if n % 1500 == 0:
+                ctx.sample(dict(cell=c, outcome=got))
+    ctx.correspond("sp_addressing_per_binding", G_IMPORTS, "show_accept_e", "(ecfg * response)", cases, shard=250)
+
+    # ---- histories: a FRESH SP object per history, several calls over changing bindings
+    cases = []
+    with env.Clock(NOW):
+        for h in range(60 if q else 1200):
+            hist = G.history(ctx.rng, 6)
+            sp, terms, outs = None, [], []
+            for c in hist:
+                case, spec = G.build(c)
+                if sp is None:
+                    sp = case.fresh_sp()
+                xml = pipeline.build_xml(spec)
+                rc, ids = pipeline.response_coq(spec, case.enc_keys)
+                got = G.call_sp(sp, case, xml, ids)
+                terms.append("(%s, %s, %s)" % (SPCase.coq(case, NOW, spec.get("destination")), core.cstr(G.BIND[c["arrive"]]), rc))
+                outs.append(G.verdict(got))
+                oracle_e(ctx, dict(c, kind="H", position=len(outs) - 1, history=hist[:len(outs)]), case, spec, got)
+            cases.append(dict(id="h%d" % h, coq="(%s, [%s])" % (G.table_coq(hist[0]["layout"]), "; ".join(terms)), impl=outs, show=hist))
+            ctx.nontriv(("history", json.dumps(hist, sort_keys=True)))
+            ctx.count("history:%d-accepted" % sum(isinstance(o, list) for o in outs))
+    ctx.correspond("sp_call_history", G_IMPORTS, "show_calls", "(list endp * list call)", cases, shard=20)
+
 
 def replay(ctx, payload):
     env.tool_inprocess(True)
     cell = payload.get("input")
+    if cell is None and isinstance(payload.get("case"), dict):
+        cell = payload["case"].get("show")
     print("replay cell:", cell)
-    if not isinstance(cell, dict) or "irt" not in cell:
-        return 0
     with env.Clock(NOW):
-        case, spec = build(cell)
-        xml = pipeline.build_xml(spec)
-        _, ids = pipeline.case_coq(case, spec, NOW)
-        print("implementation outcome:", pipeline.run_impl(case, xml, ids))
+        if isinstance(cell, dict) and cell.get("kind") == "urls":
+            sp = G.SPCaseE(layout=cell["layout"]).sp()
+            print("implementation: service_urls(%s) = %r on table %r" % (cell["binding"], sp.service_urls(G.BIND[cell["binding"]]), G.table_conf(cell["layout"])))
+        elif isinstance(cell, dict) and "call" in cell and "layout" in cell:
+            sp = G.SPCaseE(layout=cell["layout"]).sp()
+            print("implementation: service_urls(%s) = %r on table %r" % (cell["binding"], sp.service_urls(G.BIND[cell["binding"]]), G.table_conf(cell["layout"])))
+        elif isinstance(cell, (dict, list)) and (isinstance(cell, list) or "history" in cell or "kind" in cell):
+            # a per-binding cell, or a history (list of cells) on one fresh SP object
+            hist = cell if isinstance(cell, list) else cell.get("history") or [cell]
+            sp = None
+            for c in hist:
+                case, spec = G.build(c)
+                sp = sp or case.fresh_sp()
+                xml = pipeline.build_xml(spec)
+                _, ids = pipeline.response_coq(spec, case.enc_keys)
+                print("call over %-8s table %-5s Destination %-8s Recipient %-7s -> implementation outcome: %r"
+                      % (c["arrive"], c["layout"], c["dest"], c["recip"], G.call_sp(sp, case, xml, ids)))
+        elif isinstance(cell, dict) and "irt" in cell:
+            case, spec = build(cell)
+            xml = pipeline.build_xml(spec)
+            _, ids = pipeline.case_coq(case, spec, NOW)
+            print("implementation outcome:", pipeline.run_impl(case, xml, ids))
     return 0
